@@ -221,6 +221,9 @@ func RandRec(rng *rand.Rand, o RecOpts, ordinal int) oracle.Rec {
 		if sl == 0 {
 			r.Qual = nil
 		}
+		if o.SAMSafe && sl == 1 && r.Qual[0] == 9 {
+			r.Qual[0] = 10 // a lone '*' (phred 9) means "absent" in SAM text
+		}
 	}
 	// CIGAR
 	nops := 0
